@@ -959,8 +959,10 @@ def mon_C04(case):
             if post is None:
                 continue
             n = int(frame_kv(oks[0]).get("del", "0"))
-            if n != row["delid"] + 1:
-                out.append((i, f"C04 delete transaction numbered {n} after {row['delid']}"))
+            # the next number after the topic's own counter (a stored counter left ahead by a request whose later store call failed
+            # is the partial-write finding of C08, not a new one)
+            if n != c["delid"] + 1:
+                out.append((i, f"C04 delete transaction numbered {n} after {c['delid']}"))
             if not has(m, "D") and not has(m, "R"):
                 out.append((i, f"C04 delete request accepted from {act[0]} whose mode {m or 'none'} has neither D nor R"))
             ids = req_ids(w[3], c["last"])
